@@ -10,6 +10,7 @@ from __future__ import annotations
 import ast
 import itertools
 
+from engine.astutil import atom, conjuncts, parse_cond
 from engine.loader import AnalysisError, src, walk_own
 from engine.minieval import Evaluator, Obj, Raised, Unsupported
 
@@ -204,6 +205,21 @@ def check_phased_sort(prog, ctx):
     for (conds, stmts) in leaf_paths([s for s in w.body if not (isinstance(s, ast.Assign) and isinstance(s.targets[0], ast.Name) and s.targets[0].id in loads)]):
         neg, stores, pops, raises, other = classify_path(stmts, seq, phase)
         cd = dict(conds)
+        cdn = {}
+        for k_, v_ in conds:
+            a_ = atom(ast.parse(k_, mode="eval").body)
+            # a negated atom that holds is the positive atom not holding
+            cdn[a_] = v_
+
+        def holds(text):
+            a_ = atom(ast.parse(text, mode="eval").body)
+            if a_ in cdn:
+                return cdn[a_]
+            n_ = atom(ast.parse(f"not ({text})", mode="eval").body)
+            if n_ in cdn:
+                return not cdn[n_]
+            return None
+
         desc = " and ".join(("" if v else "not ") + k for k, v in conds)
         if other:
             ctx.bad(rid, f, w, f"path [{desc}]", "the phase is assigned something other than its own negation inside the sort")
@@ -216,19 +232,19 @@ def check_phased_sort(prog, ctx):
             n_swap += 1
             ctx.check(neg == 1 and pops == 0, rid, f, w, f"swap path [{desc}]",
                       f"path [{desc}] exchanges two adjacent labels and negates the phase exactly once (found {neg})")
-            ctx.check(cd.get(f"{hi} < {lo}") is True or cd.get(f"{lo} > {hi}") is True, rid, f, w, f"swap condition [{desc}]",
+            ctx.check(holds(f"{hi} < {lo}") is True, rid, f, w, f"swap condition [{desc}]",
                       "labels are exchanged only when the right one sorts strictly before the left one")
         elif pops:
             n_pair += 1
-            ket_bra = cd.get(f"{hi}.dual") is True
+            ket_bra = holds(f"{hi}.dual") is True
             ctx.check(pops == 2 and neg == (1 if ket_bra else 0), rid, f, w, f"pair path [{desc}]",
                       f"path [{desc}] removes a conjugate pair (2 pops) and negates the phase iff the pair is ket-then-bra "
                       f"(b dual): negations={neg}")
-            ctx.check(cd.get(f"{lo}.label == {hi}.label") is True and cd.get(f"{lo}.dual != {hi}.dual") is True, rid, f, w,
+            ctx.check(holds(f"{lo}.label == {hi}.label") is True and holds(f"{lo}.dual != {hi}.dual") is True, rid, f, w,
                       f"pair condition [{desc}]", "a pair is removed only for equal labels with opposite directions")
         elif raises:
             n_raise += 1
-            ctx.check(neg == 0 and cd.get(f"{lo}.label == {hi}.label") is True and cd.get(f"{lo}.dual != {hi}.dual") is False, rid, f, w,
+            ctx.check(neg == 0 and holds(f"{lo}.label == {hi}.label") is True and holds(f"{lo}.dual != {hi}.dual") is False, rid, f, w,
                       f"raise path [{desc}]", "equal labels with equal direction raise (labels must be unique conjugate pairs)")
         else:
             n_noop += 1
@@ -239,7 +255,7 @@ def check_phased_sort(prog, ctx):
     # cross-over sign
     init = [n for n in walk_own(f.node) if isinstance(n, ast.If) and any(
         isinstance(s, ast.Assign) and src(s.targets[0]) == phase for s in n.body) and n.lineno < w.lineno]
-    ok = len(init) == 1 and src(init[0].test) == "left.parity and len(r_oddpos) % 2 == 1" and src(init[0].body[0]) == f"{phase} = -1" \
+    ok = len(init) == 1 and conjuncts(init[0].test) == parse_cond("left.parity and len(r_oddpos) % 2 == 1") and src(init[0].body[0]) == f"{phase} = -1" \
         and len(init[0].orelse) == 1 and src(init[0].orelse[0]) == f"{phase} = 1"
     ctx.check(ok, rid, f, init[0] if init else f.node, src(init[0].test) if init else "missing",
               "moving the right labels over the left operand costs a sign iff the left operand is odd and the right carries an odd number of labels")
@@ -247,7 +263,7 @@ def check_phased_sort(prog, ctx):
     merged = [a for a in walk_own(f.node) if isinstance(a, ast.Assign) and src(a.targets[0]) == seq and src(a.value) == "[*l_oddpos, *r_oddpos]"]
     ctx.check(len(merged) == 1, rid, f, f.node, "merge", "the sort starts from left labels followed by right labels")
     outs = [a for a in walk_own(f.node) if isinstance(a, ast.Assign) and src(a.targets[0]) == "new._oddpos"]
-    early = [n for n in walk_own(f.node) if isinstance(n, ast.If) and src(n.test).replace("(", "").replace(")", "") == "not l_oddpos and not r_oddpos"]
+    early = [n for n in walk_own(f.node) if isinstance(n, ast.If) and conjuncts(n.test) == parse_cond("not l_oddpos and not r_oddpos")]
     # the early-return branch assigns inside an `if`: walk the whole function for the stores
     outs = [a for a in ast.walk(f.node) if isinstance(a, ast.Assign) and src(a.targets[0]) == "new._oddpos"]
     ok = len(outs) == 2 and {src(a.value) for a in outs} == {"()", f"tuple({seq})"} and len(early) == 1 and isinstance(early[0].body[-1], ast.Return)
